@@ -30,9 +30,11 @@ def env_offline():
 # --------------------------------------------------------------------------------------------
 # cargo
 
-def cargo_build(packages, features=None, release=False, timeout=3600):
+def cargo_build(packages, features=None, release=False, timeout=3600, target_dir=None):
     """Builds harness packages against /repo's working tree. Returns the directory with the binaries."""
     cmd = ["cargo", "build", "--offline"]
+    if target_dir:
+        cmd += ["--target-dir", target_dir]
     for p in packages:
         cmd += ["-p", p]
     if release:
@@ -43,7 +45,7 @@ def cargo_build(packages, features=None, release=False, timeout=3600):
     r = subprocess.run(cmd, cwd=HARNESS, env=env_offline(), stdout=subprocess.PIPE, stderr=subprocess.STDOUT,
                        text=True, timeout=timeout)
     log(f"[cargo] {' '.join(cmd[1:])}: rc={r.returncode} {time.time()-t0:.1f}s")
-    return r.returncode, r.stdout, os.path.join(TARGET, "release" if release else "debug")
+    return r.returncode, r.stdout, os.path.join(target_dir or TARGET, "release" if release else "debug")
 
 
 def cargo_build_or_die(packages, **kw):
@@ -77,7 +79,8 @@ class TlcResult:
 def run_tlc(module, cfg, workdir=None, env=None, workers=4, simulate=None, depth=None, timeout=1800,
             tags=("VEC",), deque=False, xss=False, coverage=False, heap="4g", seed=None):
     """Runs TLC on spec/<module>.tla with spec/<cfg>. PrintT lines of the form "TAG {json}" are decoded."""
-    metadir = os.path.join(BUILD, "tlc", f"{module}-{os.getpid()}-{int(time.time()*1000)%100000}")
+    import uuid
+    metadir = os.path.join(BUILD, "tlc", f"{module}-{os.getpid()}-{uuid.uuid4().hex[:12]}")
     os.makedirs(metadir, exist_ok=True)
     jopts = []
     if xss:
